@@ -115,6 +115,15 @@ func (g *GAS) OnPersist(ic *interop.Context) error {
 		g.Burn(ic, tx.Sender(), absAmount)
 	}
 	validators := g.NEO.GetNextBlockValidatorsInternal(ic.DAO)
+	if int(ic.Block.PrimaryIndex) >= len(validators) {
+		// The first block of an epoch is signed by the previous validators,
+		// NEO's OnPersist has already installed the new (smaller) list.
+		if r, ok := g.NEO.(interface {
+			GetReplacedValidatorsInternal(d *dao.Simple) keys.PublicKeys
+		}); ok {
+			validators = r.GetReplacedValidatorsInternal(ic.DAO)
+		}
+	}
 	primary := validators[ic.Block.PrimaryIndex].GetScriptHash()
 	var netFee int64
 	for _, tx := range ic.Block.Transactions {
